@@ -86,6 +86,19 @@ def gen_cases(rng, tier):
                 d, tag2 = mutate(rng, d)
                 tag += "+" + tag2
             add(h, d, e, [tag])
+    # every truncation point of the small base files (a member cut inside its header, its data, its padding ...)
+    extra_bases = [("ar", fc.ar([("first.o/", 1700000000, 7, 8, 100644, b"d" * 100), ("second.o/", 5, 0, 0, 100644, b"e" * 41), ("third.o/", 1700000001, 0, 9, 100644, b"f" * 30)]), samples.EPOCH)]
+    for h, data, e in bases + extra_bases:
+        cap = (450 if h in ("ar", "gzip", "javadoc") else 60) if tier == "quick" else 3000
+        pts = range(len(data)) if len(data) <= cap else sorted(rng.sample(range(len(data)), min(cap, 24) if tier == "quick" else 400))
+        for k in pts:
+            add(h, data[:k], e, ["trunc-at-%d" % k])
+    # references: index below, at and beyond the number of flagged objects read so far
+    for ver in ((3, 6), (3, 12), (3, 14)):
+        for nflag in (0, 1, 2, 3):
+            for idx in sorted({0, max(nflag - 1, 0), nflag, nflag + 1, 255, 2 ** 31 - 1, 2 ** 31, 2 ** 32 - 1}):
+                body = bytes([ord(")"), nflag + 1]) + b"".join(bytes([ord("z") | 0x80, 1, 97 + i]) for i in range(nflag)) + b"r" + struct.pack("<I", idx)
+                add("pyc", pm.header(ver) + body, None, ["ref-index", "flagged%d" % nflag, "idx%d" % idx])
     # every type code as the first payload byte, with and without the reference flag
     for c in range(256):
         add("pyc", pm.header((3, 12)) + bytes([c]) + b"\x02\x00\x00\x00NNNNNNNNNNNNNNNNNNNNNNNNNNNN", None, ["typecode"])
